@@ -267,6 +267,10 @@ func (c *FnCtx) heapSet(s *State, key, term string) {
 
 // havocKey gives key a fresh unconstrained value.
 func (c *FnCtx) havocKey(s *State, key string) {
+	if c.eng.finalKeys[key] {
+		// a final field is never written after construction (checked over the whole module): no havoc touches it
+		return
+	}
 	srt := c.sortOfKey(key)
 	n := c.fresh("H!" + smtKey(key))
 	c.declare(n, srt)
